@@ -427,18 +427,34 @@ func c08(r *core.Run) {
 			// the outcome (0 = condition true, 1 = false) that means "empty"
 			kindOf := func(cond ssa.Value) (string, int) {
 				ci := core.Cond(cond)
-				if ci.Kind != "lencmp" || ci.Const == nil || ci.Const.ExactString() != "0" || (ci.Op != token.EQL && ci.Op != token.NEQ) {
+				if ci.Kind != "lencmp" || ci.Const == nil {
+					return "", 0
+				}
+				// which outcome means "empty": len == 0, len < 1, len <= 0 (true) / len != 0, len >= 1, len > 0 (false)
+				emptyWhenTrue := false
+				switch k := ci.Const.ExactString(); {
+				case k == "0" && ci.Op == token.EQL, k == "1" && ci.Op == token.LSS, k == "0" && ci.Op == token.LEQ:
+					emptyWhenTrue = true
+				case k == "0" && ci.Op == token.NEQ, k == "1" && ci.Op == token.GEQ, k == "0" && ci.Op == token.GTR:
+					emptyWhenTrue = false
+				default:
 					return "", 0
 				}
 				succ := 0
-				if ci.Negate != (ci.Op == token.NEQ) {
+				if ci.Negate != !emptyWhenTrue {
 					succ = 1
 				}
 				if ci.X == param {
 					return "empty-argument", succ
 				}
-				if ex, ok := ci.X.(*ssa.Extract); ok && ex.Index == 0 && len(m.A) == 1 && ex.Tuple == m.A[0].Value() {
-					return "empty-revert-map", succ
+				// the revert map: the apply handler's first result, also when a helper of the method
+				// made the call and handed it back
+				if len(m.A) == 1 {
+					for _, lf := range valueLeaves(ci.X, nil, 0) {
+						if ex, ok := core.Strip(lf.V).(*ssa.Extract); ok && ex.Index == 0 && ex.Tuple == m.A[0].Value() {
+							return "empty-revert-map", succ
+						}
+					}
 				}
 				return "", 0
 			}
